@@ -20,6 +20,8 @@ if [ $rc1 -ne 0 ] && [ $rc2 -eq 0 ] && [ $rc3 -eq 0 ]; then
   jq --arg d "$DEMO" --arg det "$DET" --arg t "./lang/... $PKGS" '. + {confirmed: {demo_command: $d, demo_with_change: "fails", demo_without_change: "passes", existing_tests_with_change: ("go test -vet=off -count=1 " + $t + " : ok")}, detected_by: $det}' $OUT/meta.json > $D/meta.json || cp $OUT/meta.json $D/meta.json
   echo "KEPT $D"
 else
-  echo "NOT KEPT"
+  echo "NOT KEPT (worktree and output directory left in place)"
+  cp -r /tmp/keep-aside-$PROP/. $WT/ 2>/dev/null
+  exit 1
 fi
 cd /repo && git worktree remove --force $WT; rm -rf $OUT /tmp/keep-aside-$PROP /tmp/keep.$PROP.*
